@@ -24,6 +24,8 @@ func c12(c *core.Ctx) string {
 	if s != nil {
 		c12Search(c, s)
 	}
+	// the hit path re-validates only the cached path's chain: it must contain all three levels
+	muxBuildChecks(c, "R-C12-2", "")
 	c12Key(c)
 	c12Fresh(c)
 	return "Information-flow audit of the route cache: the cached decision must be a function of the key (host, method, path) and of facts re-validated on a hit. Decided path-sensitively over all paths of muxInstance.search (disjunctive states correlate the mismatch flags with the dependence events), plus key construction and cache freshness. Not decided: ARC eviction, correctness of the uncached search (C01/C05)."
@@ -106,55 +108,62 @@ func c12Search(c *core.Ctx, s *searchInfo) {
 		"a cached success route is returned without re-validating its IP filter chain", witness(badChain)...)
 
 	for _, put := range s.puts {
-		kind := s.putValueKind(put)
-		if kind == "" {
-			c.Undecide("R-C12-1", s.cons+"|put(?)", pos(c, put), "cannot classify the value handed to the cache")
-			continue
-		}
-		name := "put(status " + kind + ")"
-		if kind == "path" {
-			name = "put(success route)"
-		}
 		states := s.res.At[put]
 		if len(states) == 0 {
-			c.Discharge("R-C12-1", s.cons+"|"+name, pos(c, put), "unreachable put")
+			c.Discharge("R-C12-1", s.cons+"|put(unreachable)", pos(c, put), "unreachable put")
 			continue
 		}
-		// R-C12-1
-		var bad *flow.State
+		// group the states by the kind of value they hand to the cache
+		byKind := map[string][]*flow.State{}
 		for _, st := range states {
-			if st.Is(evHdep, flow.True) {
-				bad = st
-				break
-			}
+			byKind[s.putKindIn(st, put)] = append(byKind[s.putKindIn(st, put)], st)
 		}
-		c.Check(bad == nil, "R-C12-1", s.cons+"|"+name, pos(c, put),
-			sprintf("%d states reach the put, none after a header-dependent branch", len(states)),
-			"the route is cached after a header-conditioned entry was consulted: a later request with the same host+method+path but other headers is served the cached outcome although the cache-less router decides differently", witness(bad)...)
-		// R-C12-2
-		bad = nil
-		why := ""
-		for _, st := range states {
-			ruleDep := st.Is(evIPRule, flow.True) && !nilFilterKnown(s, st, "rule")
-			switch {
-			case st.Is(evIPEarly, flow.True):
-				bad, why = st, "the put is reachable after the IP filter of an earlier rule/path was passed; that filter is not part of the cached path's chain, so a client it denies is served from the cache"
-			case kind != "path" && ruleDep:
-				bad, why = st, "a failure route is cached after a rule-level IP filter was passed; on a hit no IP test is repeated, so a client that filter denies gets the cached status instead of 403"
-			case kind != "path" && st.Is(evIPSrv, flow.True) && !hitCoversServer:
-				bad, why = st, "a failure route is cached after the server-level IP filter was passed, but the hit path returns cached failure routes without any IP test: a denied client gets the cached 404/405 instead of 403"
+		for _, kind := range sortedKeys(byKind) {
+			sts := byKind[kind]
+			if kind == "" {
+				c.Undecide("R-C12-1", s.cons+"|put(?)", pos(c, put), "cannot classify the value handed to the cache")
+				continue
 			}
-			if bad != nil {
-				break
+			name := "put(status " + kind + ")"
+			if kind == "path" {
+				name = "put(success route)"
 			}
+			// R-C12-1
+			var bad *flow.State
+			for _, st := range sts {
+				if st.Is(evHdep, flow.True) {
+					bad = st
+					break
+				}
+			}
+			c.Check(bad == nil, "R-C12-1", s.cons+"|"+name, pos(c, put),
+				sprintf("%d states reach the put, none after a header-dependent branch", len(sts)),
+				"the route is cached after a header-conditioned entry was consulted: a later request with the same host+method+path but other headers is served the cached outcome although the cache-less router decides differently", witness(bad)...)
+			// R-C12-2
+			bad = nil
+			why := ""
+			for _, st := range sts {
+				ruleDep := st.Is(evIPRule, flow.True) && !nilFilterKnown(s, st, "rule")
+				switch {
+				case st.Is(evIPEarly, flow.True):
+					bad, why = st, "the put is reachable after the IP filter of an earlier rule/path was passed; that filter is not part of the cached path's chain, so a client it denies is served from the cache"
+				case kind != "path" && ruleDep:
+					bad, why = st, "a failure route is cached after a rule-level IP filter was passed; on a hit no IP test is repeated, so a client that filter denies gets the cached status instead of 403"
+				case kind != "path" && st.Is(evIPSrv, flow.True) && !hitCoversServer:
+					bad, why = st, "a failure route is cached after the server-level IP filter was passed, but the hit path returns cached failure routes without any IP test: a denied client gets the cached 404/405 instead of 403"
+				}
+				if bad != nil {
+					break
+				}
+			}
+			w := witness(bad)
+			if bad != nil && kind != "path" && !hitCoversServer && badHit != nil {
+				w = append(w, "hit path without server-level test:")
+				w = append(w, witness(badHit)...)
+			}
+			c.Check(bad == nil, "R-C12-2", s.cons+"|"+name, pos(c, put),
+				sprintf("%d states reach the put; every IP test they passed is re-validated on a hit", len(sts)), why, w...)
 		}
-		w := witness(bad)
-		if bad != nil && kind != "path" && !hitCoversServer && badHit != nil {
-			w = append(w, "hit path without server-level test:")
-			w = append(w, witness(badHit)...)
-		}
-		c.Check(bad == nil, "R-C12-2", s.cons+"|"+name, pos(c, put),
-			sprintf("%d states reach the put; every IP test they passed is re-validated on a hit", len(states)), why, w...)
 	}
 }
 
